@@ -1,9 +1,8 @@
 CONSTANTS
   NS = 2
   Cap = 1
-  MaxSec = 2
+  MaxSeq = 2
   MaxMsg = 2
-  MaxRSec = 2
   MaxRd = 2
   MaxConn = 2
   Mode = "free"
